@@ -194,6 +194,14 @@ impl Recv {
                     }
                 };
 
+                // A message may repeat the field, but not with another value.
+                for other in frame.fields().get_all(header::CONTENT_LENGTH) {
+                    if frame::parse_u64(other.as_bytes()).ok() != Some(content_length) {
+                        proto_err!(stream: "conflicting content-length values; stream={:?}", stream.id);
+                        return Err(Error::library_reset(stream.id, Reason::PROTOCOL_ERROR).into());
+                    }
+                }
+
                 stream.content_length = ContentLength::Remaining(content_length);
                 // END_STREAM on headers frame with non-zero content-length is malformed.
                 // https://datatracker.ietf.org/doc/html/rfc9113#section-8.1.1
